@@ -88,6 +88,7 @@ type FuncInfo struct {
 	MPkg  *packages.Package
 	Loops []*LoopSpec
 	Ghost []*GhostSpec
+	Split bool
 }
 
 // GhostSpec: ghost statements (a Go function from the contract file) executed
@@ -229,6 +230,13 @@ func (p *Program) parseContractFile(pk *packages.Package, f *ast.File) {
 				}
 				p.Axioms[pk.PkgPath] = append(p.Axioms[pk.PkgPath], owner)
 				p.Trusted = append(p.Trusted, "axiom "+owner.Name.Name+" (assumed)")
+			case "split":
+				fi := p.resolveFunc(pk, rest)
+				if fi == nil {
+					p.problem("%s: cannot resolve function %q", p.Fset.Position(c.Pos()), rest)
+					continue
+				}
+				fi.Split = true
 			case "purepkg":
 				if !p.PurePkgs[rest] {
 					p.PurePkgs[rest] = true
